@@ -466,7 +466,7 @@ class ODF2MoinMoin(object):
         buffer = []
 
         paragraphs = [el for el in text.childNodes
-                      if el.tagName in ["draw:page", "text:p", "text:h","text:section",
+                      if el.tagName in ["draw:page", "draw:frame", "text:p", "text:h","text:section",
                                         "text:list", "table:table"]]
 
         for paragraph in paragraphs:
